@@ -8,8 +8,8 @@ What is decided here:
   whose error is dropped after the configuration was accepted (`x, _ := f(field)`, `Must*(field)`) has a call of the
   same constructor family on the same field of the same settings type inside a `validate` method with the error
   returned, *compiling the same pattern text* (for regexps the extractor follows helpers such as `fullMatchRegex` down to
-  the string handed to `regexp.Compile`; see `sameValidity`). The list of exceptions is empty since `Match.KeepFiringFor`
-  is validated too.
+  the string handed to `regexp.Compile`; see `sameValidity`). Two listed exceptions remain (optional durations whose empty value is
+  harmless by construction); `Match.KeepFiringFor`, never validated before, is validated since 87d8211.
 * `dropped_error_is_safe` — why that is enough for pure constructors: a constructor is a function of its argument,
   so if validation saw `ok v`, the later call with the error dropped yields the same `v`.
 * `mustExpand_total` — the one constructor that also depends on the rule (`TemplatedRegexp.Expand`): after fix
@@ -29,11 +29,20 @@ pattern is a different matter: `\Qabc` is valid, `^(?:\Qabc)$` is not (the crash
 def sameValidity (usePat validatedPat : String) : Bool :=
   usePat == validatedPat || (validatedPat == "$" && usePat == "\"^\" + $ + \"$\"")
 
-def sameField (u v : Row) : Bool := v.typ == u.typ && v.field == u.field && v.fam == u.fam && sameValidity u.pat v.pat
+/-- the condition the validation sits under (the field written `$`): none, or one of the conditions the use sits under. `if $ != "" { validate }` with an unconditional use lets the empty string through unvalidated (the
+`report { severity = "" }` defect) -/
+def guardCovers (u v : Row) : Bool := v.guards.all u.guards.contains
+
+def sameField (u v : Row) : Bool :=
+  v.typ == u.typ && v.field == u.field && v.fam == u.fam && sameValidity u.pat v.pat && guardCovers u v
 
 /-- dropped errors that no validate method covers, and why they cannot crash -/
 def exceptions : List (String × String × String) :=
-  []   -- was: Match.KeepFiringFor (never validated, harmless zero value); validated since fix 87d8211
+  [ -- validated only when not empty, used always: the empty string gives the zero duration, which means "no limit"
+    ("CostSettings", "MaxEvaluationDuration", "duration"),
+    -- validated only when not empty; an empty value is replaced by the two minute default right before the use
+    ("PrometheusQuery", "Timeout", "duration") ]
+  -- Match.KeepFiringFor used to be here (never validated); validated since fix 87d8211
 
 def covered (u : Row) : Bool :=
   validates.any (sameField u) || exceptions.contains (u.typ, u.field, u.fam)
